@@ -1193,6 +1193,7 @@ func (fc *FnCtx) modified(li *loopInfo) (locals map[*ssa.Alloc]bool, heaps map[s
 					heaps[fc.ghostKey(g)] = true
 				}
 			case *ssa.Send, *ssa.Select:
+				// (ghosts assigned at send#/select# anchors inside loops are not supported: none so far)
 				// interference at blocking operations is not modelled (sequential semantics of the
 				// activation): contracts that read shared state across a blocking operation name the
 				// single-writer assumption they rely on
